@@ -232,6 +232,10 @@ class LiteralEvaluator:
 		elif org_calls == 'str':
 			# 文字列リテラルは引用符付きで保持しているため、そのまま返す
 			if isinstance(arguments[0], str):
+				# XXX 引用符付きの文字列以外(無視対象の参照は空文字になる)は、異なる値になるため不許可
+				if not self._allow_string(arguments[0]):
+					raise Errors.OperationNotAllowed(node, calls, arguments)
+
 				return arguments[0]
 			else:
 				return f'"{str(arguments[0])}"'
